@@ -382,11 +382,11 @@ Theorem C04_every_browser_follows_its_provider_partial P bs :
 Proof. exact (every_browser_follows_its_provider P bs). Qed.
 Print Assumptions C04_every_browser_follows_its_provider_partial.
 
-(* non-vacuity: providers of "_t.", "_b." and idle ones of "_c." with a browser of "_t." and one of "_b."; both active
-   providers register; each browser follows its provider *)
+(* non-vacuity: providers of "_t.", "_b." and idle ones of "_c." with a browser of "_t." and one of "_b."; provider 0 registers,
+   creates, updates and completes its probe (three records on the link) while provider 1 registers; each browser follows its provider *)
 Example C04_symmetric_nonvacuous :
-  exists P bs, netS P bs /\ h_reg (cp_host (o_comp (P 0%nat))) = true /\ h_reg (cp_host (o_comp (P 1%nat))) = true
-    /\ map bn_type bs = map bn_type B0 /\ forall j, o_type (P j) = o_type (P0 j).
+  exists P bs, netS P bs /\ pv_confirmed (cp_prov (o_comp (P 0%nat))) = true /\ h_reg (cp_host (o_comp (P 1%nat))) = true
+    /\ length (o_link (P 0%nat)) = 3%nat /\ map bn_type bs = map bn_type B0 /\ forall j, o_type (P j) = o_type (P0 j).
 Proof. exact symmetric_nonvacuous. Qed.
 Example C04_symmetric_follows P b0 b1 : (forall j, o_type (P j) = o_type (P0 j)) -> map bn_type [b0; b1] = map bn_type B0 ->
   follows P 0 b0 /\ follows P 1 b1.
